@@ -4,10 +4,17 @@
    Model: model/Pdf417M.v (highlevel.go, errorcorrection.go, dimensions.go,
    encoder.go, pdfcode.go; tables from gen/TabPdf417.v).  Specification:
    spec/Pdf417Spec.v (ISO/IEC 15438 reference reader, written independently).
-   The column count chosen by calcDimensions (float aspect-ratio heuristic) is an
-   oracle: the theorems hold for EVERY column count. *)
+   The main theorems hold for EVERY column count (pdf_encode takes it as an
+   oracle).  The choice calcDimensions actually makes (float aspect-ratio
+   heuristic) is modelled in model/Pdf417DimM.v (floats as exact ratios with
+   +Inf; float64 = exact on all 708963 comparable pairs, enumerated by the check);
+   pdf_encode_go = EncodeWithColor with that choice inside, pdf_encode_auto =
+   pdf_encode at the chosen column count: C04_calc_dimensions,
+   C04_encode_with_calc_dimensions, C04_roundtrip_auto below.  The shape stays
+   FREE in the properties: the check compares the implementation's shape with the
+   model's only informationally. *)
 From Verif Require Import Prelude Barcode TabPdf417 Pdf417M Pdf417Spec Pdf417PTab Pdf417PRow Pdf417PNum
-  Pdf417PText Pdf417PHL Pdf417Props.
+  Pdf417PText Pdf417PHL Pdf417Props Pdf417DimM Pdf417DimP.
 
 (* COMPOSITION.  For every byte string, every security level (a Go byte) and
    every column count: if the encoder model returns a barcode then its pixel
@@ -24,6 +31,91 @@ Theorem C04_roundtrip : forall data level cols bc,
   pdf_valid (bc_rows bc) = true /\ pdf_decode (bc_rows bc) = Some data.
 Proof. exact pdf_c04_roundtrip. Qed.
 Print Assumptions C04_roundtrip.
+
+(* CALCDIMENSIONS INSIDE THE MODEL.  For every number of data codewords >= 0 and
+   every number of check words >= 2 (the levels 0..8 give 2,4,...,512) the model
+   of calcDimensions (loop over 2..30 columns, float comparison, fallback) returns
+   a pair (never panics) and
+   - if dataWords + 1 + eccWords <= 900 = maxRows*maxCols, the pair passes the size
+     test of EncodeWithColor: 2 <= cols <= 30, 2 <= rows <= 30, rows is the MINIMAL
+     row count for cols (cols*(rows-1) < dataWords+1+eccWords <= cols*rows, i.e.
+     fewer pad codewords than columns), and the symbol has at most 900 <= 928
+     codewords;
+   - otherwise the pair is (0,0), which the size test rejects ("Unable to fit data
+     in barcode").  This is the only guard on the number of data codewords in the
+     code: dataWords <= 899 - eccWords (897 at level 0, 387 at level 8). *)
+Theorem C04_calc_dimensions : forall m k, 0 <= m -> 2 <= k ->
+  exists cols rows, pdf_calc_dimensions_auto m k = Ok (cols, rows) /\
+    ((m + 1 + k <= 900 /\
+      2 <= cols <= 30 /\ 2 <= rows <= 30 /\
+      cols * (rows - 1) < m + 1 + k <= cols * rows /\
+      0 <= cols * rows - (m + 1 + k) < cols /\ cols * rows <= 900) \/
+     (900 < m + 1 + k /\ cols = 0 /\ rows = 0)).
+Proof. exact pdf_dim_choice. Qed.
+Print Assumptions C04_calc_dimensions.
+
+(* the same, read from the encoder's side: whatever calcDimensions returns, if the
+   size test of EncodeWithColor lets it pass, it is a legal, minimal shape *)
+Theorem C04_calc_dimensions_accepted : forall m k cols rows, 0 <= m -> 2 <= k ->
+  pdf_calc_dimensions_auto m k = Ok (cols, rows) ->
+  pdf_size_test_rejects cols rows = false ->
+  2 <= cols <= 30 /\ 2 <= rows <= 30 /\
+  cols * (rows - 1) < m + 1 + k <= cols * rows /\
+  0 <= cols * rows - (m + 1 + k) < cols /\
+  m + 1 + k <= 900 /\ cols * rows <= 900.
+Proof. exact pdf_dim_accepted. Qed.
+Print Assumptions C04_calc_dimensions_accepted.
+
+(* EncodeWithColor with calcDimensions inside (pdf_encode_go) IS the
+   per-column-count model at the column count the modelled calcDimensions chooses
+   (pdf_encode_auto data level = pdf_encode data level (pdf_auto_cols data level)) *)
+Theorem C04_encode_with_calc_dimensions : forall data level, 0 <= level <= 255 ->
+  pdf_encode_go data level = pdf_encode_auto data level.
+Proof. exact pdf_encode_go_auto. Qed.
+Print Assumptions C04_encode_with_calc_dimensions.
+
+(* COROLLARY: C04_roundtrip for the encoder with calcDimensions inside, no oracle *)
+Theorem C04_roundtrip_auto : forall data level bc,
+  pdf_bytes data -> 0 <= level <= 255 ->
+  pdf_encode_auto data level = Ok bc ->
+  pdf_valid (bc_rows bc) = true /\ pdf_decode (bc_rows bc) = Some data.
+Proof. exact pdf_c04_roundtrip_auto. Qed.
+Print Assumptions C04_roundtrip_auto.
+
+Theorem C04_roundtrip_calc_dimensions : forall data level bc,
+  pdf_bytes data -> 0 <= level <= 255 ->
+  pdf_encode_go data level = Ok bc ->
+  pdf_valid (bc_rows bc) = true /\ pdf_decode (bc_rows bc) = Some data.
+Proof. exact pdf_c04_roundtrip_go. Qed.
+Print Assumptions C04_roundtrip_calc_dimensions.
+
+(* accept/reject without oracle: never a panic; a symbol exactly when the level is
+   at most 8 and the codewords fit 30 x 30 *)
+Theorem C04_calc_dimensions_accepts : forall data level, pdf_bytes data -> 0 <= level <= 255 ->
+  pdf_encode_go data level <> Panic /\ pdf_encode_go data level <> OutOfFuel /\
+  exists dw, pdf_highlevel data = Ok dw /\
+    ((exists bc, pdf_encode_go data level = Ok bc) <->
+     (level <= 8 /\ zlength dw + 1 + pdf_ec_count level <= 900)) /\
+    (pdf_encode_go data level = Err <->
+     ~ (level <= 8 /\ zlength dw + 1 + pdf_ec_count level <= 900)).
+Proof. exact pdf_encode_go_accepts. Qed.
+Print Assumptions C04_calc_dimensions_accepts.
+
+(* the symbol has exactly the shape the modelled calcDimensions chose: bounds, and
+   the reference reader sees cols x rows, rows minimal for cols, pads < cols *)
+Theorem C04_calc_dimensions_shape : forall data level bc,
+  pdf_bytes data -> 0 <= level <= 255 -> pdf_encode_go data level = Ok bc ->
+  exists dw cols rows sym,
+    pdf_highlevel data = Ok dw /\
+    pdf_calc_dimensions_auto (zlength dw) (pdf_ec_count level) = Ok (cols, rows) /\
+    bc_width bc = 17 * (cols + 4) + 1 /\ bc_height bc = rows * pdf_module_height /\
+    pdfs_read (bc_rows bc) = Some sym /\ ps_cols sym = cols /\ ps_rows sym = rows /\
+    2 <= cols <= 30 /\ 2 <= rows <= 30 /\
+    cols * (rows - 1) < zlength dw + 1 + 2 ^ (level + 1) <= cols * rows /\
+    let pads := hd 0 (ps_codewords sym) - 1 - zlength dw in
+    0 <= pads < cols /\ zlength (ps_codewords sym) = rows * cols.
+Proof. exact pdf_encode_go_shape. Qed.
+Print Assumptions C04_calc_dimensions_shape.
 
 (* Layer 2, whole message: for ALL byte strings highlevelEncode returns codewords
    (no error, panic or exhausted fuel) which the ISO decoder (text/byte/numeric
@@ -93,3 +185,12 @@ Print Assumptions C04_nonvacuous_padpunct.
 Example C04_nonvacuous_mixed : pdf_ex_ok pdf_ex_mixed 4 5 = true.
 Proof. exact pdf_c04_example_mixed. Qed.
 Print Assumptions C04_nonvacuous_mixed.
+
+(* the modelled calcDimensions evaluated in the kernel: 3 x 5 for 10+1+4 codewords,
+   30 x 30 for 897+1+2, nothing for 898+1+2 *)
+Example C04_nonvacuous_calc_dimensions :
+  pdf_calc_dimensions_auto 10 4 = Ok (3, 5) /\
+  pdf_calc_dimensions_auto 897 2 = Ok (30, 30) /\
+  pdf_calc_dimensions_auto 898 2 = Ok (0, 0).
+Proof. exact pdf_dim_examples. Qed.
+Print Assumptions C04_nonvacuous_calc_dimensions.
